@@ -255,4 +255,18 @@ def run_case(cs):
                 {"kind": "ignored-edit-nonzero", "cmd": cmd, "edit": kind, "exit": r.exit, "names_ignored_path": mentions},
                 {**ctx, "out": r.text[-500:]},
             )
+    # ---- a pattern given to verify / diff on the command line excludes a file that is not recorded
+    if rng.random() < 0.3:
+        newf = "cli-ignored-%d.xyz" % rng.randint(0, 99)
+        with open(os.path.join(root, newf), "wb") as f:
+            f.write(b"new")
+        for cmd in ("verify", "diff"):
+            r = drive.run(cmd, [root, "-i", "*.xyz"])
+            cs.evaluated()
+            cs.count("cli_pattern_commands")
+            if r.internal:
+                cs.violation(classify.internal_key(r), classify.internal_sig(r, cmd + "-i"), r.brief())
+            elif r.exit != 0:
+                cs.violation("ignored-path-affects-verification", {"kind": "ignored-edit-nonzero", "cmd": cmd + " -i", "edit": "add-unrecorded", "exit": r.exit, "names_ignored_path": newf in r.text}, {"steps": steps, "out": r.text[-300:]})
+        os.remove(os.path.join(root, newf))
     cs.sample({"steps": steps, "edit": kind, "path": what, "effective": eff})
